@@ -53,20 +53,22 @@ func checkC08(c streamCase) (Outcome, error) {
 		old := runtime.GOMAXPROCS(c.Procs)
 		defer runtime.GOMAXPROCS(old)
 	}
-	r := gen.NewReader(stream)
-	r.Delays = c.Delays
-	r.Plan = c.Plan
 	if len(c.Plan) > 0 {
 		out.Classes = append(out.Classes, "short-reads")
 		// keep the number of sleeping reads bounded: with 1-byte reads a sleep per read would take minutes
 		if len(c.Plan) == 1 && c.Plan[0] < 64 {
-			for i := range r.Delays {
-				if r.Delays[i] >= 10 {
-					r.Delays[i] = 1 + r.Delays[i]%9
+			for i := range c.Delays {
+				if c.Delays[i] >= 10 {
+					c.Delays[i] = 1 + c.Delays[i]%9
 				}
 			}
 		}
 	}
+	if c.Source != "" {
+		out.Classes = append(out.Classes, "source:"+c.Source)
+	}
+	r, done := openSource(c, stream)
+	defer done()
 	vf, ef := w.Fast(r)
 	is, ifa := namedItem(es), namedItem(ef)
 	out.NonTrivial = vs || (es != nil && !errSaysZero(es))
